@@ -80,7 +80,8 @@ pub trait UTraitHidden {
     fn one(&self, a: i32, b: i32) -> i32;
 }
 
-/// the mock API names are usable as written
+/// the mock API names are usable as written (mock APIs exist under cfg(test) unless exported)
+#[cfg(test)]
 fn client() {
     let _ = (U0Mock, U3Mock, UNoDepsMock, UConcreteMock);
     let _ = (u_mod::UModMock::same_a, u_mod::UModMock::other, UTraitMock::one, UTraitMock::two);
